@@ -1194,6 +1194,17 @@ func (g *Gen) addEdge(from, to *ssa.BasicBlock, st *State, cond string) {
 	if li := g.loops[to]; li != nil && to.Dominates(from) {
 		// back edge: invariant preserved
 		g.checkInvariants(li, edge{from, st, cond}, "invariant-preserved")
+		if li.spec != nil && len(li.spec.IterEnsures) > 0 {
+			s3 := st.clone()
+			s3.pc = cond
+			save := g.curPos
+			g.curPos = g.loopPos(li)
+			for _, c := range li.spec.IterEnsures {
+				ctx := &specCtx{g: g, st: s3, old: g.entry}
+				g.oblige(s3, "iter-ensures", c.ID, fmt.Sprintf("loop %d: at the end of every iteration %s", li.ordinal, c.Src), g.evalGoal(ctx, c.E))
+			}
+			g.curPos = save
+		}
 		if !g.discovery {
 			s2 := st.clone()
 			s2.pc = cond
